@@ -14,6 +14,7 @@ whose terminals carry one symbol per cell side ('s@+', 's@-') and one for the un
               restriction in a non-facet integral are rejected.
   C17-policy  per terminal type, the policy assigned by the dispatch table is at least as strict as the
               oracle table (ignore < default < require/opposite); unknown terminal types fail loudly.
+  C17-key     shared MEMO-KEY rule incl. the persistent vcaches of the per-side propagators.
 """
 
 from __future__ import annotations
